@@ -28,6 +28,20 @@ AC = "msmart.device.AC.device.AirConditioner"
 SIGN_KEY = b"xhdiwjnchekd4d512chdjx5d8e4c394D2D7S"
 
 
+def as_mapping(prog, t):
+    """a record built positionally / by keyword from a NamedTuple (or dataclass) class of the package reads as the mapping field -> value"""
+    t0 = strip(t)
+    if t0[0] == "call" and t0[1][0] == "func" and t0[1][1] in prog.classes:
+        c = prog.classes[t0[1][1]]
+        rf = prog.record_fields(c) if prog.is_namedtuple(c) else None
+        if rf is not None and len(t0[2]) <= len(rf):
+            vals = {f: v for (f, _d), v in zip(rf, t0[2])}
+            vals.update({k: v for k, v in t0[3] if isinstance(k, str)})
+            if set(vals) == {f for f, _d in rf}:
+                return ("dict", tuple((("const", f), vals[f]) for f, _d in rf))
+    return t
+
+
 def reported_ip_is_source(ctx, rule: str):
     """The address a device is reported (and later contacted) under is the address its reply came from - not the address inside the reply.
     Shared with C18: one device per responding *host* is about that address."""
@@ -35,7 +49,7 @@ def reported_ip_is_source(ctx, rule: str):
     gi = ctx.fn(f"{DISC}._get_device_info")
     s = summarize(prog, gi)
     ip_p = gi.params[1]
-    rets = [t for pc, t, n, _ in s.returns if n is not None and t[0] == "dict"]
+    rets = [as_mapping(prog, t) for pc, t, n, _ in s.returns if n is not None and as_mapping(prog, t)[0] == "dict"]
     info = {k[1]: v for k, v in rets[0][1] if k[0] == "const"} if len(rets) == 1 else {}
     ctx.ob(rule, gi.qual, strip(info.get("ip", ("top",))) == ("param", ip_p), "reported ip = the datagram's source address (not the address inside the reply)",
            func=gi.qual, file=gi.module.rel, construct='"ip": ip', detail={"term": show(info.get("ip", ("top", "?")))[:100]},
@@ -51,7 +65,7 @@ def run(ctx):
     file = gi.module.rel
     s = summarize(prog, gi)
     ip_p, ver_p, data_p = gi.params[1], gi.params[2], gi.params[3]
-    rets = [(pc, t, n) for pc, t, n, _ in s.returns if n is not None and t[0] == "dict"]
+    rets = [(pc, as_mapping(prog, t), n) for pc, t, n, _ in s.returns if n is not None and as_mapping(prog, t)[0] == "dict"]
     ctx.ob("C17.a", gi.qual, len(rets) == 1, "one return builds the device-info mapping", func=gi.qual, file=file, construct="return {...}",
            fail=f"{len(rets)} returns build a device-info mapping")
     if not rets:
@@ -173,7 +187,7 @@ def run(ctx):
             built = tt[0] == "call" and tt[1][0] == "dyn" and call_is(strip(tt[1][1]), f"{DISC}._get_device_class") and any(k == "**" for k, _v in tt[3]) \
                 and any(call_is(x, f"{DISC}._get_device_info") for k, v in tt[3] for x in subterms(v))
             cls_arg = strip(strip(tt[1][1])[2][-1]) if built else None
-            built = built and cls_arg[0] == "sub" and cls_arg[2] == ("const", "device_type")
+            built = built and ((cls_arg[0] == "sub" and cls_arg[2] == ("const", "device_type")) or (cls_arg[0] == "attr" and cls_arg[2] == "device_type"))          # (mapping or record)
     ctx.ob("C17.b", gd.qual, built, "_get_device returns device_class(**info) with device_class = _get_device_class(info['device_type'])", func=gd.qual, file=file,
            construct="device_class(**info)", fail="_get_device does not build the device from the parsed info with the class selected by its type")
     # Device constructor / getters
@@ -271,6 +285,10 @@ def run(ctx):
                     mk = y[1]
         seen[t2[1]] = mk
     xml_first = any(isinstance(n2, ast.Call) and call_is(t2, "xml.etree.ElementTree.fromstring") for n2, t2 in gvs.ta.terms_at.items())
+    if not xml_first:
+        from ..helpers import with_helpers
+        for h_ in with_helpers(prog, gv)[1:]:          # (the classification moved into a helper, possibly in another module)
+            xml_first = xml_first or any(isinstance(n2, ast.Call) and call_is(t2, "xml.etree.ElementTree.fromstring") for n2, t2 in summarize(prog, h_).ta.terms_at.items())
     ctx.count("version_returns", len(seen))
     ctx.ob("C17.c", gv.qual, seen.get(2) == b"\x5a\x5a" and seen.get(3) == b"\x83\x70" and 1 in seen and seen.get(1) is None and xml_first,
            "version dispatch: XML -> 1, 5a5a -> 2, 8370 -> 3", func=gv.qual, file=file, construct="version dispatch", detail={"markers": {k: (v.hex() if v else None) for k, v in seen.items()}},
